@@ -276,11 +276,26 @@ func doMaster(c *checks.Check, seed int64) int {
 		fmt.Fprintln(os.Stderr, "HARNESS ERROR:", err)
 		return 2
 	}
+	unreproduced := 0
 	for _, nt := range m.Notes {
 		if strings.HasPrefix(nt, "HARNESS") {
 			fmt.Fprintln(os.Stderr, nt)
 			return 2
 		}
+		if strings.HasPrefix(nt, "UNREPRODUCED") {
+			unreproduced++
+		}
+	}
+	// a verdict that did not repeat on re-execution is never reported as a violation; if nothing else was found it
+	// is a harness error (exit 2), next to reproducible violations it is only counted
+	if unreproduced > 0 && len(m.Violations) == 0 {
+		for _, nt := range m.Notes {
+			if strings.HasPrefix(nt, "UNREPRODUCED") {
+				fmt.Fprintln(os.Stderr, "HARNESS ERROR:", nt)
+				break
+			}
+		}
+		return 2
 	}
 
 	findings, err := fw.LoadFindings(filepath.Join(*verifDir, "known_findings.txt"))
@@ -361,6 +376,9 @@ func doMaster(c *checks.Check, seed int64) int {
 	extras := map[string]int64{}
 	for k, v := range m.Extras {
 		extras[k] = v
+	}
+	if unreproduced > 0 {
+		extras["unreproduced_verdicts"] = int64(unreproduced)
 	}
 	cov["counters"] = extras
 	if len(knownSeen) > 0 {
